@@ -821,8 +821,17 @@ func (ex *Exec) makeInterface(fr *frame, st *State, reach *Term, in *ssa.MakeInt
 			if _, isC := xo.(*Closure); isC {
 				return ex.freshRef(st, reach, "closure-iface")
 			}
+			if a, isA := xo.(*Addr); isA {
+				// an interior pointer (&x.f) boxed into an interface: a first-class reference that stands
+				// for the address (resolved again by `modifies *x` of the callee's contract)
+				return ex.addrRefOf(a)
+			}
 			ex.unsupportedAt(in, fmt.Sprintf("interface from %T", xo))
 		}
+		if ex.boxedPtr == nil {
+			ex.boxedPtr = map[string]types.Type{}
+		}
+		ex.boxedPtr[x.String()] = xt
 		// a nil pointer in an interface is a non-nil interface in Go; we model interface
 		// values holding pointers by the pointer itself (typed-nil interfaces are not modelled).
 		vc.note("interface values holding pointers are modelled by the pointer (a typed nil pointer inside an interface is treated as a nil interface)")
